@@ -148,7 +148,7 @@ Definition cp_decide (nl : netlist) (n : net) : cp_dec :=
 Definition max_wid (nl : netlist) : Z :=
   fold_left (fun m x => Z.max m (wname x)) (wires nl) 0.
 
-(* per net (numbered i, fresh constant id k = base + i):
+(* per net (k = the fresh constant's id):
    (nets emitted, producer links, constant wires created) *)
 Definition cp_apply (nl : netlist) (k : Z) (n : net)
   : list net * list (Z * Z) * list wire :=
@@ -164,14 +164,17 @@ Definition cp_apply (nl : netlist) (k : Z) (n : net)
   | CpNot w => ([mkNet OpNot [w] d], [], [])
   end.
 
+(* the fresh Const created for net n is named after n's destination (any fresh
+   name will do: each destination has a single driver) *)
 Definition constant_prop_pass (nl : netlist) : netlist :=
   let base := max_wid nl + 1 in
-  let rs := map (fun p => cp_apply nl (fst p) (snd p)) (number base (nets nl)) in
-  let m := flat_map (fun r => snd (fst r)) rs in
-  let cws := flat_map (fun r => snd r) rs in
-  let fuel := S (length (nets nl)) in
-  let ns := map (map_args (find_producer fuel m)) (flat_map (fun r => fst (fst r)) rs) in
-  remove_unused_wires (mkNetlist (wires nl ++ cws) ns (mems nl)).
+  let res := fun n => cp_apply nl (base + ndest n) n in
+  let m := flat_map (fun n => snd (fst (res n))) (nets nl) in
+  let rho := find_producer (S (length (nets nl))) m in
+  remove_unused_wires
+    (mkNetlist (wires nl ++ flat_map (fun n => snd (res n)) (nets nl))
+               (flat_map (fun n => map (map_args rho) (fst (fst (res n)))) (nets nl))
+               (mems nl)).
 
 (* `while net_count.shrinking(): pass` with _NetCount (prev = 1000*len initially,
    continue while cur <= prev - 1) *)
